@@ -159,3 +159,60 @@ def snapshot(paths):
         else:
             out[p] = None
     return out
+
+
+def request_script(spec):
+    """Scripted requests for one generated application (C03-C07)."""
+    m = spec["name"]
+    reqs = []
+    fallible = ["%s.c%d" % (m, c["i"]) for c in spec["ctors"] if c["fallible"]] + \
+               ["%s.m%d" % (m, w["i"]) for w in spec["mws"] if w["fallible"]]
+    pres = [w["i"] for w in spec["mws"] if w["kind"] == "pre"]
+    for h in spec["handlers"]:
+        path = h.get("full_path", h["path"])
+        base = {"method": h["method"], "path": path, "route": h["i"]}
+        reqs.append(dict(base, script=[], tag="plain"))
+        reqs.append(dict(base, script=[], tag="plain-again"))
+        for p in pres:
+            reqs.append(dict(base, script=["early:%s.m%d" % (m, p)], tag="early", early=[p]))
+        if len(pres) >= 2:
+            reqs.append(dict(base, script=["early:%s.m%d" % (m, p) for p in pres], tag="early-all", early=pres))
+        for f in fallible + (["%s.h%d" % (m, h["i"])] if h["fallible"] else []):
+            reqs.append(dict(base, script=[f], tag="fail", fail=f))
+        other = "DELETE" if h["method"] != "DELETE" else "GET"
+        reqs.append({"method": other, "path": path, "script": [], "tag": "wrong-method", "route": h["i"]})
+    reqs.append({"method": "GET", "path": "/%s/nope" % m, "script": [], "tag": "unknown-path"})
+    return reqs
+
+
+def get_runtime(R):
+    """Observations of the generated servers: {program: {"requests": [...], "result": runner output}}."""
+    obs, info = get_stage(R)
+    key = info["key"]
+    cache = os.path.join(SCRATCH, "runtime-%s.json" % key)
+    if os.path.exists(cache):
+        with open(cache) as f:
+            return obs, info, json.load(f)
+    with pxvlib.BuildLock("e2e-runtime"):
+        if os.path.exists(cache):
+            with open(cache) as f:
+                return obs, info, json.load(f)
+        t0 = time.time()
+        out = {}
+        by_ws = {}
+        for o in obs.values():
+            if o["rc"] == 0 and o.get("cargo_check", {}).get("ok") and o["spec"]:
+                by_ws.setdefault(o["workspace"], []).append(o)
+        for root, progs in by_ws.items():
+            ws = workspace_of(progs[0], info)
+            names = [o["name"] for o in progs]
+            e2e.write_runner(ws, names)
+            script = {o["name"]: request_script(o["spec"]) for o in progs}
+            res = e2e.run_servers(ws, script)
+            for o in progs:
+                out[o["name"]] = {"requests": script[o["name"]], "result": res.get(o["name"])}
+        with open(cache + ".tmp", "w") as f:
+            json.dump(out, f)
+        os.replace(cache + ".tmp", cache)
+        R.log("runtime stage: %d servers in %.0fs" % (len(out), time.time() - t0))
+        return obs, info, out
